@@ -366,7 +366,7 @@ def leg_c06(pid, spec, leg, tier, seed):
             os.remove(o)
         cmds.append([os.path.join(tdir, "release", "g%d" % k), "--seed", str(seed), "--part", str(k), "--out", o])
         outs.append(o)
-    res = _run_procs(cmds, 600, env=env)
+    res = _run_procs(cmds, 150, env=env)
     for k, r in enumerate(res):
         rc, dt, to, tail = r
         if to or rc != 0 or not os.path.exists(outs[k]):
